@@ -22,6 +22,7 @@ type Server struct {
 	mu             sync.RWMutex
 	logger         hclog.Logger
 	connWg         sync.WaitGroup
+	connMu         sync.Mutex // orders connWg.Add (Run) with connWg.Wait (Stop)
 	listener       net.Listener
 	listenerReady  bool
 	router         *Mux
@@ -204,7 +205,18 @@ func (s *Server) Run(addr string, opt ...Option) error {
 		}
 		conn.disablePanicRecovery = s.disablePanicRecovery
 		localConnID := connID
+		// a WaitGroup's Add must not run concurrently with its Wait: register
+		// the connection under connMu, and not at all once the server is
+		// stopping (Stop cancels the shutdown context and then passes through
+		// connMu before it waits).
+		s.connMu.Lock()
+		if s.shutdownCtx.Err() != nil {
+			s.connMu.Unlock()
+			_ = c.Close()
+			continue
+		}
 		s.connWg.Add(1)
+		s.connMu.Unlock()
 		go func() {
 			// a client must not be able to keep the server from stopping: when
 			// the server is stopped, pending reads and writes on the accepted
@@ -298,6 +310,10 @@ func (s *Server) Stop() error {
 		s.shutdownCancel()
 	}
 	s.logger.Debug("waiting on connections to close")
+	// every connection Run has registered, or still registers, is registered
+	// before this point; later ones see the cancelled shutdown context
+	s.connMu.Lock()
+	s.connMu.Unlock() //nolint:staticcheck // empty critical section: a barrier
 	s.connWg.Wait()
 	s.logger.Debug("stopped")
 	return nil
